@@ -4,6 +4,8 @@ import gen as G
 import conv
 
 COQ_IMPORTS = ['Model.Regexp', 'Judge.C05_judge']
+PDA_FREE = True      # no PDA is involved: the recycling pass runs with GambaTools.pda_epsilon_closure_max_iterations = 3
+LOG_SAFE = True      # no printed output is read back: the recycling pass runs with GambaTools.enable_logging = True
 RULE = ('all regexp trees with <= N nodes over {0,1,a,b} (N=4 quick, 6 thorough), each with all words of length <= 4 over {a,b}; '
         'plus random trees of depth <= 7 over {a,b,c} with 24 random words of length <= 7. Observed: regexp_accepts_word on every word, '
         'regexp_simplify, regexp_size. Non-trivial = the tree contains a star or a concatenation and at least one word is accepted and one rejected; distinct by tree.')
